@@ -29,6 +29,17 @@ import (
 //	B  barrier
 //	N  no-op command
 //	P  snapshot
+//	X  restart: Close and Open again; the node leads again in a fresh term in which
+//	   nothing but raft's own no-op is committed
+//	Q  not-ready window: a ready channel is registered (what auto-restore and the
+//	   cluster layer do), a strong and a linearizable read are sent - they are refused
+//	   with ErrNotReady, which is no violation - then the channel is closed
+//	F  slow strong read in flight: a strong read that takes the FSM a good while
+//	   (recursive CTE) is started; as soon as its log entry is committed but not yet
+//	   applied (commit index > FSM index) a linearizable read is sent, with a 60 s
+//	   timeout: it really has to WAIT for an entry that does not change the database.
+//	   If the strong read is through before the window is seen, that is counted
+//	   (windows_missed) and the read is an ordinary one.
 //
 // is run on a fresh real single-node Store (bootstrapped, leader, its own
 // quorum), followed by one linearizable read. Every linearizable read - the
@@ -44,7 +55,13 @@ import (
 
 const c38ReadTimeout = 3 * time.Second
 
-var c38OpName = map[byte]string{'W': "write", 'S': "strong-read", 'L': "linearizable-read", 'J': "join", 'R': "remove", 'B': "barrier", 'N': "noop-command", 'P': "snapshot"}
+// the read sent while a slow strong read is being applied has to outlast that query
+const c38InFlightTimeout = 60 * time.Second
+
+const c38SlowSQL = `WITH RECURSIVE c(x) AS (SELECT 1 UNION ALL SELECT x+1 FROM c WHERE x < 1000000) SELECT COUNT(*) FROM c`
+
+var c38OpName = map[byte]string{'W': "write", 'S': "strong-read", 'L': "linearizable-read", 'J': "join", 'R': "remove", 'B': "barrier", 'N': "noop-command", 'P': "snapshot",
+	'X': "restart", 'Q': "not-ready-window", 'F': "slow-strong-read-in-flight"}
 
 // c38Histories lists every history of length <= depth in which R is only used
 // while a joined non-voter exists.
@@ -56,7 +73,7 @@ func c38Histories(depth int) []string {
 		if len(h) == depth {
 			return
 		}
-		for _, op := range "WSLJRBNP" {
+		for _, op := range "WSLJRBNPXQF" {
 			switch op {
 			case 'J':
 				rec(h+"J", joined+1)
@@ -77,8 +94,10 @@ func TestVerif_C38(t *testing.T) {
 	r := kit.Start(t, "C38", "hist")
 	defer r.Finish()
 	depth := r.Pick(2, 3)
-	r.Rule(fmt.Sprintf("every history of length <=%d over {write, strong read, linearizable read, join non-voter, remove it, barrier, no-op command, snapshot} on a fresh real single-node Store, each followed by a linearizable read with no intervening write; every linearizable read must return without error within its 3 s timeout. distinct = (history, outcome of each linearizable read)", depth))
-	r.Assume("single node: the leader is its own quorum and stays leader; leader changes and snapshot installs on followers need the multi-node part, which is not built")
+	r.Rule(fmt.Sprintf("every history of length <=%d over {write, strong read, linearizable read, join non-voter, remove it, barrier, no-op command, snapshot, restart (fresh term), not-ready window (ready channel registered, a strong and a linearizable read refused, channel closed), slow strong read in flight (a linearizable read sent while a committed strong read is still being applied)} on a fresh real single-node Store, each followed by a linearizable read with no intervening write; every linearizable read must return without error within its 3 s timeout (60 s for the one sent while the slow strong read is in flight); reads refused with ErrNotReady inside a not-ready window are not judged. distinct = (history, outcome of each linearizable read)", depth))
+	r.Assume("single node: the leader is its own quorum and leads again after a restart; leader changes between nodes and snapshot installs on followers are the cluster part's business")
+	r.Add("windows_hit", 0)
+	r.Add("windows_missed", 0)
 	r.Note("raft's internal interleavings are whatever each run produced; the oracle does not depend on them")
 
 	hs := c38Histories(depth)
@@ -126,10 +145,10 @@ func c38Run(t *testing.T, r *kit.Run, h string) (string, int) {
 	var joined []string
 	steps := 0
 	lastNonRead := "create-table-write"
-	linRead := func(pos int) {
+	linReadT := func(pos int, timeout time.Duration) {
 		qr := queryRequestFromString("SELECT COUNT(*) FROM t", false, false, false)
 		qr.Level = proto.ConsistencyLevel_LINEARIZABLE
-		qr.LinearizableTimeout = int64(c38ReadTimeout)
+		qr.LinearizableTimeout = int64(timeout)
 		t0 := time.Now()
 		_, lvl, _, err := s.Query(context.Background(), qr)
 		steps++
@@ -154,6 +173,7 @@ func c38Run(t *testing.T, r *kit.Run, h string) (string, int) {
 				c38Spell(h), pos, lastNonRead, err, time.Since(t0).Round(time.Millisecond), ci, kind, s.fsmIdx.Load()),
 			map[string]any{"history": h, "then": "L"})
 	}
+	linRead := func(pos int) { linReadT(pos, c38ReadTimeout) }
 	for i := 0; i < len(h); i++ {
 		op := h[i]
 		steps++
@@ -188,11 +208,88 @@ func c38Run(t *testing.T, r *kit.Run, h string) (string, int) {
 		case 'P':
 			// "nothing new to snapshot" and "wait until the configuration entry" are legitimate refusals
 			s.Snapshot(0)
+		case 'X':
+			must("close", s.Close(true))
+			must("reopen", s.Open())
+			_, err := s.WaitForLeader(60 * time.Second)
+			must("leader after restart", err)
+			c38Poll(h, "store ready after restart", s.Ready)
+		case 'Q':
+			ch := make(chan struct{})
+			s.RegisterReadyChannel(ch)
+			var got []string
+			for _, lvl := range []proto.ConsistencyLevel{proto.ConsistencyLevel_STRONG, proto.ConsistencyLevel_LINEARIZABLE} {
+				qr := queryRequestFromString("SELECT COUNT(*) FROM t", false, false, false)
+				qr.Level = lvl
+				qr.LinearizableTimeout = int64(c38ReadTimeout)
+				_, _, _, err := s.Query(context.Background(), qr)
+				switch {
+				case errors.Is(err, ErrNotReady):
+					got = append(got, "refused")
+				case err == nil:
+					got = append(got, "served")
+				default:
+					got = append(got, "other-error")
+				}
+			}
+			close(ch)
+			c38Poll(h, "store ready after the ready channel was closed", s.Ready)
+			obs = append(obs, "Q:"+strings.Join(got, "/"))
+		case 'F':
+			c0 := s.raft.CommitIndex()
+			done := make(chan error, 1)
+			go func() {
+				qr := queryRequestFromString(c38SlowSQL, false, false, false)
+				qr.Level = proto.ConsistencyLevel_STRONG
+				_, _, _, err := s.Query(context.Background(), qr)
+				done <- err
+			}()
+			finished := false
+			// the strong read is the next log entry: in flight = committed (commit index beyond
+			// c0) and not yet applied (FSM index still below the commit index)
+			inFlight := func() bool { ci := s.raft.CommitIndex(); return ci > c0 && s.fsmIdx.Load() < ci }
+			for deadline := time.Now().Add(60 * time.Second); !finished && !inFlight(); {
+				select {
+				case err := <-done:
+					must("slow strong read", err)
+					finished = true
+				default:
+					if time.Now().After(deadline) {
+						panic(fmt.Sprintf("harness: history %q: slow strong read neither committed nor returned in 60 s", h))
+					}
+					time.Sleep(100 * time.Microsecond)
+				}
+			}
+			if finished {
+				r.Add("windows_missed", 1)
+			} else {
+				r.Add("windows_hit", 1)
+			}
+			// the read under test: sent while the FSM is still applying the strong read
+			steps++
+			linReadT(i, c38InFlightTimeout)
+			if !finished {
+				select {
+				case err := <-done:
+					must("slow strong read", err)
+				case <-time.After(120 * time.Second):
+					panic(fmt.Sprintf("harness: history %q: slow strong read never returned", h))
+				}
+			}
 		}
 		lastNonRead = c38OpName[op]
 	}
 	linRead(len(h))
 	return strings.Join(obs, ","), steps
+}
+
+func c38Poll(h, what string, ok func() bool) {
+	for deadline := time.Now().Add(30 * time.Second); !ok(); {
+		if time.Now().After(deadline) {
+			panic(fmt.Sprintf("harness: history %q: waited 30 s for: %s", h, what))
+		}
+		time.Sleep(2 * time.Millisecond)
+	}
 }
 
 func c38Spell(h string) string {
